@@ -452,6 +452,8 @@ class C29(Prop):
             rc2, o2, e2 = wait(p2)
 
             def parse(rc, out):
+                if rc == 124 and out == "":
+                    return {"fail": True, "timeout": True}
                 if rc != 0:
                     return {"fail": True}
                 try:
@@ -479,6 +481,11 @@ class C29(Prop):
             return ("crash", f"harness/implementation crashed or hung: {str(o)[:300]}")
         if c["f"] == "prog":
             sf, ref = o["sf"], o["ref"]
+            if ref.get("timeout"):
+                return None          # the reference did not finish (overloaded machine): no verdict on this program
+            if "ok" in ref and sf.get("timeout"):
+                return ("sf-hangs", f"cwltool prints {json.dumps(ref['ok'], sort_keys=True)[:300]}, StreamFlow did not "
+                                    f"finish within {self.RUNNER_TIMEOUT} s in two attempts")
             if "ok" in ref and "fail" in sf:
                 return ("sf-fails-ref-succeeds", f"cwltool prints {json.dumps(ref['ok'], sort_keys=True)[:300]}, "
                                                  f"StreamFlow fails: {sf.get('why', '')[:300]}")
@@ -498,6 +505,8 @@ class C29(Prop):
         if "crash" in o or "hang" in o:
             return None
         if c["f"] == "prog":
+            if o["ref"].get("timeout") or o["sf"].get("timeout"):
+                return None          # no complete observation to compare the interpreter with
             def ob(x):
                 return coq_opt(x.get("ok"), coq_obj) if "ok" in x else "None"
             try:
